@@ -79,6 +79,8 @@ pub struct ItemSpec {
 
 #[derive(Clone, Debug, Default)]
 pub struct Canary {
+    /// which occurrence of `from` (0-based) is replaced
+    pub nth: usize,
     pub name: String,
     pub expect: String,
     pub from: String,
@@ -226,7 +228,7 @@ pub fn parse_unit(text: &str) -> Unit {
                 let mut p = ProofSpec { mode: mode.clone(), text: block.clone(), ..Default::default() };
                 match mode.as_str() {
                     "start" | "end" | "tail" | "rawstart" => {}
-                    "loopstart" | "loopend" => p.anchor = words.get(1).cloned().unwrap_or_default(),
+                    "loopstart" | "loopend" | "rawloopstart" => p.anchor = words.get(1).cloned().unwrap_or_default(),
                     "before" | "after" | "wrap" => {
                         let after_mode = rest[mode.len()..].to_string();
                         let (q, rem) = parse_quoted(&after_mode);
@@ -256,7 +258,8 @@ pub fn parse_unit(text: &str) -> Unit {
                     }
                     tgt.push_str(l);
                 }
-                unit.canaries.push(Canary { name: words[0].clone(), expect: words[2].clone(), from: from.trim().to_string(), to: to.trim().to_string() });
+                let nth = words.get(3).and_then(|w| w.strip_prefix("nth=")).and_then(|n| n.parse::<usize>().ok()).unwrap_or(0);
+                unit.canaries.push(Canary { nth, name: words[0].clone(), expect: words[2].clone(), from: from.trim().to_string(), to: to.trim().to_string() });
             }
             _ => die("malformed-unit", &format!("line {ln}: unknown directive {kw}")),
         }
